@@ -137,8 +137,22 @@ def canon_value(v):
     return v
 
 
+def _straddling_text():
+    """a text of ~17 MB whose multi-byte characters sit across the byte offsets 2**16, 2**20 and 2**24 (and 3 * 2**22): whatever
+    block size a reader uses, some character is cut in two"""
+    parts, nbytes = [], 0
+    for boundary in (2 ** 16, 2 ** 20, 3 * 2 ** 22, 2 ** 24):
+        fill = boundary - 1 - nbytes
+        parts.append("x" * fill)
+        parts.append("\u00e9")          # 2 bytes: one before, one after the boundary
+        nbytes += fill + 2
+    parts.append("tail \u20ac")
+    return "".join(parts)
+
+
 def values(rng):
     vs = [("str_empty", ""), ("str_ascii", "hello"), ("str_unicode", "héllo ∀x — 中文"), ("str_big", "x" * 1000000),
+          ("str_big_unicode", _straddling_text()),
           ("str_crlf", "dos\r\nlines\r\n"), ("str_cr", "a\rb"), ("str_ws", " \t\n trailing \n"), ("str_nul", "a\x00b"),
           ("bytes_empty", b""), ("bytes", b"\x00\xff\x10abc"), ("bytes_big", bytes(range(256)) * 4000), ("none", None),
           ("int", 12345678901234567890), ("list", [1, "a", None]), ("dict", {"k": [1, 2]}), ("object", {"s": {1, 2}}),
@@ -295,7 +309,7 @@ def run(ctx):
         written["key_str_new"] = ("str_new", "new text", json.load(open(os.path.join(internal, "blobs", "key_str_new.meta")))["protocol"], None)
         read_all("after writing with the re-prioritised registry")
         # another process (fresh registry + the user codecs registered in another order)
-        keys = [k for k in written if k != "key_str_new"]
+        keys = [k for k in written if k not in ("key_str_new", "key_str_big_unicode")]
         p = subprocess.run([sys.executable, "-B", "-c", CHILD % (common.REPO, common.ROOT), internal, data, json.dumps(keys)],
                            capture_output=True, text=True, cwd="/", timeout=300)
         if p.returncode != 0:
